@@ -194,6 +194,8 @@ def _tms_types(em, base, targs, name):
             return CT_("xc_ahm", 1)
     if base == "std::list":
         return CT_("xc_ahm_list")
+    if base.split("::")[-1] in ("AttributesHashMapWithCustomHash", "AttributesHashMap"):
+        return CT_("xc_ahm")
     return None
 
 
@@ -234,12 +236,14 @@ def _configure_tms(cfg):
         cfg.ext_q[cls + "::Get"] = lambda em, node, recv, args: "xc_ahm_Get(%s, (const void *)%s)" % (em.expr(unp(recv)), em.addr_of(args[0]))
         cfg.ext_q[cls + "::Set"] = lambda em, node, recv, args: "xc_ahm_Set(%s, (const void *)%s, %s)" % (em.expr(unp(recv)), em.addr_of(args[0]), em.expr(args[1]))
         cfg.ext_q[cls + "::GetAllEnteries"] = _tms_enum
+        cfg.ext_q[cls + "::Size"] = lambda em, node, recv, args: "AHM_SIZE(%s)" % em.expr(unp(recv))
         cfg.ext_q[cls + "::GetOrSetDefault"] = lambda em, node, recv, args: "xc_ahm_GetOrSetDefault(%s, (const void *)%s)" % (em.expr(unp(recv)), em.addr_of(args[0]))
     for U in ("std::unique_ptr::", "std::shared_ptr::", "std::__shared_ptr_access::"):
         cfg.ext_methods[U + "operator->"] = lambda em, recv, args, n: recv
         cfg.ext_methods[U + "operator*"] = lambda em, recv, args, n: "(*%s)" % recv
         cfg.ext_methods[U + "get"] = lambda em, recv, args, n: recv
         cfg.ext_methods[U + "operator bool"] = lambda em, recv, args, n: "(%s != NULL)" % recv
+        cfg.ext_methods[U + "operator="] = lambda em, recv, args, n: "%s = %s" % (recv, em.expr(args[0]))
     cfg.ctor_ext["std::unique_ptr"] = lambda em, node, args: (em.expr(args[0]) if args else "NULL")
     cfg.ctor_ext["std::shared_ptr"] = lambda em, node, args: (em.expr(args[0]) if args else "NULL")
     cfg.ext["new"] = lambda em, n: "xc_new_ahm()"
@@ -309,3 +313,83 @@ def refute_storage(mod, proof, violations, ix, workdir, seed):
 
 for _p in proofs_tms:
     refuters[_p.name] = refute_storage
+
+
+# ---------------------------------------------------------------------------------------------
+# buildMetrics, the per-collector bookkeeping after the unreported deltas were merged (slice `reported .. result_to_export` of the real body): what a
+# reader is handed is the map just merged for it - for a delta reader the deltas stashed since ITS previous collection and nothing older - and that
+# map becomes its "last reported" entry stamped with this collection's time; a delta reader's interval starts where its previous one ended, a
+# cumulative reader's previous totals are merged in exactly once. std::unordered_map<CollectorHandle *, LastReportedMetrics> is seen at the
+# collector's slot (find / end / operator[] / insert per the C++ standard).
+BK_PRE = TMS_PRE + r"""
+typedef struct xc_lrit { int slot; } xc_lrit;                 /* iterator of the last-reported map: 0 = the collector's entry, -1 = end() */
+int g_lr_present; unsigned long g_enum_on_old;
+"""
+BK_POST = TMS_POST.replace("static xc_aggr xc_o_get, xc_o_merge, xc_o_create; static xc_ahm xc_o_map; static xc_last_reported xc_o_last;",
+    "typedef struct xc_lr_pair { const void *first; xc_last_reported second; } xc_lr_pair;      /* value_type of the last-reported map */\n"
+    "static xc_aggr xc_o_get, xc_o_merge, xc_o_create; static xc_ahm xc_o_map; static xc_lr_pair xc_o_pair;\n#define xc_o_last (xc_o_pair.second)").replace(
+    "static xc_last_reported *xc_last_reported_of(void) { return &xc_o_last; }", r"""
+static xc_lrit xc_lr_find(void) { xc_lrit it; it.slot = g_lr_present ? 0 : -1; return it; }
+static xc_lrit xc_lr_end(void) { xc_lrit it; it.slot = -1; return it; }
+/* operator[](collector): the entry, value-initialised first if absent */
+static xc_last_reported *xc_last_reported_of(void) { if (!g_lr_present) { g_lr_present = 1; xc_o_last.attributes_map = NULL; xc_o_last.collection_ts.nanos_since_epoch_ = 0; } return &xc_o_last; }
+/* insert({collector, value}): only if absent */
+static void xc_lr_insert(xc_last_reported v) { if (!g_lr_present) { g_lr_present = 1; xc_o_last = v; } }
+""")
+
+
+def _bk_types(em, base, targs, name):
+    if base in ("std::__detail::_Node_iterator", "std::__detail::_Node_const_iterator", "std::__detail::_Node_iterator_base") or name.endswith("::iterator"):
+        return CT_("xc_lrit")
+    if base == "std::pair" and targs and "LastReportedMetrics" in targs[-1]:
+        return CT_("xc_last_reported")
+    return None
+
+
+def _configure_bk(cfg):
+    _configure_tms(cfg)
+    cfg.type_handlers.insert(0, _bk_types)
+    cfg.type_map["std::unordered_map<opentelemetry::sdk::metrics::CollectorHandle *, opentelemetry::sdk::metrics::LastReportedMetrics>::iterator"] = "xc_lrit"
+    M = "std::unordered_map::"
+    cfg.ext_methods[M + "find"] = lambda em, recv, args, n: "xc_lr_find()"
+    cfg.ext_methods[M + "end"] = lambda em, recv, args, n: "xc_lr_end()"
+    cfg.ext_methods[M + "insert"] = lambda em, recv, args, n: "xc_lr_insert(%s)" % em.expr(args[0])
+    for it in ("std::__detail::_Node_iterator", "std::__detail::_Node_const_iterator", "std::__detail::_Node_iterator_base"):
+        cfg.ext_methods[it + "::operator!="] = lambda em, recv, args, n: "(%s.slot != %s.slot)" % (recv, em.expr(args[0]))
+        cfg.ext_methods[it + "::operator=="] = lambda em, recv, args, n: "(%s.slot == %s.slot)" % (recv, em.expr(args[0]))
+        cfg.ext_methods[it + "::operator->"] = lambda em, recv, args, n: "(&xc_o_pair)"
+    for k in ("std::operator!=", "std::operator==", "std::__detail::operator!=", "std::__detail::operator=="):
+        cfg.ext_q[k] = (lambda neg: (lambda em, node, recv, args: "(%s.slot %s %s.slot)" % (em.pexpr_post(args[0]), "!=" if neg else "==", em.pexpr_post(args[1]))))("!=" in k)
+    cfg.ext["make_pair"] = lambda em, node, recv, args: em.expr(args[1])
+    cfg.ctor_ext["LastReportedMetrics"] = None
+
+
+SL_BK = {"func": ("TemporalMetricStorage::buildMetrics", 6), "from": "reported", "to": "result_to_export", "cname": "buildMetrics_bookkeeping"}
+contracts_bk = {"buildMetrics_bookkeeping": {"pre":
+    "__CPROVER_requires(__CPROVER_is_fresh(self, sizeof(*self)) && __CPROVER_is_fresh(merged_metrics, sizeof(*merged_metrics)) && __CPROVER_is_fresh(*merged_metrics, sizeof(xc_ahm)) && AHM_WF(*merged_metrics))\n"
+    "__CPROVER_requires(__CPROVER_is_fresh(last_collection_ts, sizeof(*last_collection_ts)) && __CPROVER_is_fresh(xc_out_result_to_export, sizeof(xc_ahm *)) && (g_lr_present == 0 || g_lr_present == 1))\n"
+    "__CPROVER_requires(__CPROVER_is_fresh(aggregation_temporarily, sizeof(int)) && __CPROVER_is_fresh(collection_ts, sizeof(*collection_ts)) && __CPROVER_is_fresh(xc_out_reported, sizeof(xc_lrit)) && __CPROVER_is_fresh(collector, sizeof(*collector)))\n"
+    "__CPROVER_requires(!g_lr_present || (__CPROVER_is_fresh(xc_o_last.attributes_map, sizeof(xc_ahm)) && AHM_WF(xc_o_last.attributes_map)))\n"
+    "__CPROVER_assigns(*merged_metrics, *last_collection_ts, *xc_out_result_to_export, *xc_out_reported, g_lr_present, xc_o_pair, g_enum_calls, g_enum_map, g_cb_calls, xc_o_get, xc_o_merge, xc_o_create; "
+    "*merged_metrics != NULL: __CPROVER_object_whole(*merged_metrics))\n"
+    # what the reader is handed is the map merged for it in this collection (never an older one), and it becomes its last reported entry, stamped now
+    "__CPROVER_ensures(*xc_out_result_to_export == __CPROVER_old(*merged_metrics) && g_lr_present == 1 && xc_o_last.attributes_map == __CPROVER_old(*merged_metrics))\n"
+    "__CPROVER_ensures(xc_o_last.collection_ts.nanos_since_epoch_ == collection_ts->nanos_since_epoch_)\n"
+    # a delta reader's interval starts where its previous one ended (at the caller's value, SDK start, the first time); a cumulative one's always at SDK start
+    "__CPROVER_ensures((*aggregation_temporarily != 2 && __CPROVER_old(g_lr_present)) ==> last_collection_ts->nanos_since_epoch_ == __CPROVER_old(xc_o_last.collection_ts.nanos_since_epoch_))\n"
+    "__CPROVER_ensures((*aggregation_temporarily == 2 || !__CPROVER_old(g_lr_present)) ==> last_collection_ts->nanos_since_epoch_ == __CPROVER_old(last_collection_ts->nanos_since_epoch_))\n"
+    # a cumulative reader's previous totals are walked exactly once (merged in through the callback), a delta reader's never
+    "__CPROVER_ensures(g_enum_calls == ((*aggregation_temporarily == 2 && __CPROVER_old(g_lr_present)) ? 1UL : 0UL))\n"
+    "__CPROVER_ensures((*aggregation_temporarily == 2 && __CPROVER_old(g_lr_present)) ==> g_enum_map == __CPROVER_old(xc_o_last.attributes_map))\n"}}
+_pb = Proof("Temporal_bookkeeping", [SL_BK], enforce="buildMetrics_bookkeeping", timeout=300,
+            desc="per-collector bookkeeping: the reader is handed the map merged in this collection, which becomes its last reported entry; interval start; previous totals merged once for cumulative readers")
+_pb.tu = TU_TMS
+_pb.pre_c = BK_PRE
+_pb.post_struct_c = BK_POST
+_pb.spec_headers = ("xc_trace_boundary.h",)
+_pb.force_records = ("common::SystemTimestamp",)
+_pb.configure = _configure_bk
+_pb.own_config = True
+_pb.contracts = dict(contracts_tms, **contracts_bk)
+proofs.append(_pb)
+refuters[_pb.name] = refute_storage
